@@ -171,6 +171,7 @@ class SessionBase:
         except Violation as v:
             v.step = self.step
             self.violation = v
+            violation_seen(self)
             raise
         self.events.append([self.step, op, jdigest(args), jdigest(out)])
         self.sig.append(f'{op}:{self.outcome_kind(out)}')
@@ -240,6 +241,15 @@ TASK_STATS = None            # Stats of the running task
 TASK_DIGEST = None           # running digest over all sessions of the task (determinism self-test)
 
 
+FIRST_VIOLATION = None       # (record, first sessions, last sessions) at the time the task first saw a violation
+
+
+def violation_seen(sess):
+    global FIRST_VIOLATION
+    if FIRST_VIOLATION is None and RECENT is not None:
+        FIRST_VIOLATION = (sess.record(), [r for _, r in FIRST], [r for _, r in RECENT])
+
+
 def session_started(sess):
     global LAST_SESSION
     LAST_SESSION = sess
@@ -277,7 +287,8 @@ def run_machine(machine_cls, seed, max_examples, step_count, shrink_seconds):
 
 def _task(spec):
     """Runs in a forked worker: one Hypothesis machine run with a fixed example budget."""
-    global TASK_STATS, TASK_DIGEST, LAST_SESSION, RECENT, FIRST
+    global TASK_STATS, TASK_DIGEST, LAST_SESSION, RECENT, FIRST, FIRST_VIOLATION
+    FIRST_VIOLATION = None
     from collections import deque
     RECENT = deque(maxlen=5)
     FIRST = []
@@ -307,10 +318,17 @@ def _task(spec):
         name = type(e).__name__
         out['status'] = 'nondeterminism' if 'Flaky' in name else 'harness'
         out['error'] = traceback.format_exc()
+        if 'Flaky' in name and FIRST_VIOLATION is not None:
+            # Hypothesis re-ran a failing history and it behaved differently: the system under test carries state from
+            # one session of this process to the next.  The first violation seen is reported with the process history
+            # that preceded it; it only counts if that replays in a fresh interpreter.
+            out['status'] = 'violation'
+            out['record'], out['prefix_first'], out['prefix'] = FIRST_VIOLATION
+            out['flaky'] = True
         notes = getattr(e, '__notes__', None)
         if notes:
             out['error'] += '\n'.join(notes)
-        if LAST_SESSION is not None:
+        if LAST_SESSION is not None and out['status'] != 'violation':
             out['record'] = LAST_SESSION.record()
     faulthandler.cancel_dump_traceback_later()
     out['stats'] = TASK_STATS.to_json()
